@@ -19,9 +19,9 @@ func init() {
 		Assumptions: []string{"ids are disjoint from every value pool, so a hit is a trace of the entity", "under CascadeCreateUpdate dangling boss references are declared behaviour and excluded"},
 		Plan: func(tier core.Tier, seed int64) int {
 			if tier == core.Thorough {
-				return 48000 + c06SibCases*20 + 48*10 + c06RcCases*10 + c06SymCases*10 + c06BigCases*4
+				return 48000 + c06SibCases*20 + 48*10 + c06RcCases*10 + c06SymCases*10 + c06BigCases*4 + c06ChildTargetCases*10
 			}
-			return 720 + c06SibCases + 48 + c06RcCases + c06SymCases + c06BigCases
+			return 720 + c06SibCases + 48 + c06RcCases + c06SymCases + c06BigCases + c06ChildTargetCases
 		},
 		Run: func(c *core.Ctx, idx int) {
 			nHist := 720
@@ -43,6 +43,14 @@ func init() {
 			nSym := c06SymCases
 			if c.Tier == core.Thorough {
 				nSym *= 10
+			}
+			nBig := c06BigCases
+			if c.Tier == core.Thorough {
+				nBig *= 4
+			}
+			if idx >= nHist+nSib+nSelf+nRc+nSym+nBig {
+				c06ChildTarget(c, idx-nHist-nSib-nSelf-nRc-nSym-nBig)
+				return
 			}
 			if idx >= nHist+nSib+nSelf+nRc+nSym {
 				c06Big(c, idx-nHist-nSib-nSelf-nRc-nSym)
